@@ -427,6 +427,9 @@ def run(ctx, chk, tier="quick"):
     sqltypes.check(ctx, chk, "C17.O3", modules=("simulate_rise",), views=("average_rising_depth",))
     f = ctx.func("simulate_rise.compute_rise_curve")
     p = f.params
+    from ..alias import read_only_arguments_in_modules
+    read_only_arguments_in_modules(ctx, chk, "C17.O3", ("spline", "specific_yield", "simulate_rise"), "the level grid is the caller's: simulate_rise prints it as the water-level column next to the curve, so a grid clamped in place lists the end knots instead of the measured levels, and the storage difference between two listed levels is no longer the integral of the specific yield between them",
+                                   out_params=(("PeatclsmSpecificYield.get_Sy_soil", "Sy_soil"),))   # the output buffer _construct_spline allocates and hands in to be filled
     from ..perm import sorted_values_regathered
     sorted_values_regathered(ctx, chk, "C17.O3", ('simulate_rise', 'specific_yield'), "simulate_rise")
     facts, probs = simfacts.extract(ctx, f, p[1], p[2])
